@@ -14,6 +14,8 @@ def site_positions(m):
     for i in range(m.G):
         out.append(c[i])
         out.append((c[i] + c[i + 1]) / 2)
+    if m.grid == "ulp":  # a one-ulp cell has no interior point
+        out = sorted({x for x in out if x < m.L})
     return out
 
 
